@@ -364,7 +364,10 @@ def _distinct(fc, fs, debug):
             return None
         return "different operation: forwards to `%s` (stem %s) where the contract requires `%s` (stem %s)" % (
             fc["head"], sc, fs["head"], ss)
-    if fc["mode"] != fs["mode"] and sc in MODE_SENSITIVE and ss in MODE_SENSITIVE:
+    # unsigned division and remainder cannot overflow: their plain / strict / wrapping forms are one function (a by-reference
+    # `/=` that forwards to the by-value `/=` is not "a different overflow mode" of wrapping_div)
+    no_modes = (not signed) and sc in ("div", "rem", "div_euclid", "rem_euclid") and {fc["mode"], fs["mode"]} <= {"plain", "strict", "wrapping"}
+    if fc["mode"] != fs["mode"] and sc in MODE_SENSITIVE and ss in MODE_SENSITIVE and not no_modes:
         return "different overflow mode: forwards to `%s` (%s) where the contract requires `%s` (%s)" % (
             fc["head"], fc["mode"], fs["head"], fs["mode"])
     if fc["head"] != fs["head"] or fc["wraps"] != fs["wraps"] or len(fc["args"]) != len(fs["args"]):
